@@ -6,6 +6,7 @@ import (
 	"net"
 	"os"
 	"runtime"
+	"sort"
 	"strings"
 	"sync"
 	"sync/atomic"
@@ -27,7 +28,8 @@ func main() { Main("C20", runC20) }
 
 const (
 	heartbeat = 150 * time.Millisecond
-	settle    = 15 * time.Second // generous bound for "eventually" conditions; never reached on a healthy run
+	settle    = 20 * time.Second // bound for "eventually" conditions in the first pass; never reached on a healthy run
+	patience  = 45 * time.Second // the same in the confirmation pass (a case re-run alone): only a stable wrong state is reported
 )
 
 // ---- scenario ----
@@ -72,6 +74,8 @@ func sdpBody(kind, base string) string {
 	switch kind {
 	case "va":
 		return sdpHead + sdpVideo + "a=control:trackID=0\r\n" + sdpAudio + "a=control:trackID=1\r\n"
+	case "av": // the audio section first: the SETUPs still go out video first, each to its own track
+		return sdpHead + sdpAudio + "a=control:trackID=1\r\n" + sdpVideo + "a=control:trackID=0\r\n"
 	case "v":
 		return sdpHead + sdpVideo + "a=control:trackID=0\r\n"
 	case "a":
@@ -93,7 +97,7 @@ func sdpBody(kind, base string) string {
 // ---- observation ----
 
 type observation struct {
-	out       string // stream | nil | hang | panic
+	out       string // stream | nil | hang | panic | infra
 	reqs      []string
 	dialled   bool
 	closed    bool // the client closed its connection (after a failed Open, or after the play phase ended)
@@ -105,11 +109,22 @@ type observation struct {
 	regAfter  bool // something is registered under the path at the very end
 	cseqOK    bool // CSeq strictly increasing from 1
 	extra     int  // requests after the successful PLAY (keep-alive)
+	wantKA    int  // keep-alives the play events call for (heart-beat interval passed, then a message arrived)
 	extraBad  bool
 	panicked  bool
 	secondBad bool // a second request while the pull is live did not get the same stream
 	idleTask  int  // idle-close tasks posted for the pulled stream (expected: 1 unless the route says keepalive)
+	afresh    bool // a later request for the path, after everything ended, pulled from the camera again
 	notes     []string
+}
+
+// ka: the keep-alives as compared with the model (more than called for — the machine was slow and the
+// interval passed by itself — is not a difference)
+func (o *observation) ka() int {
+	if o.extra >= o.wantKA {
+		return o.wantKA
+	}
+	return o.extra
 }
 
 func (o *observation) String() string {
@@ -117,8 +132,8 @@ func (o *observation) String() string {
 	if len(o.reqs) > 0 {
 		r = strings.Join(o.reqs, ",")
 	}
-	return fmt.Sprintf("out=%s dialled=%s reqs=%s closed=%s reg=%s sent=%d delivered=%d clean=%s cclosed=%s regafter=%s cseq=%s",
-		o.out, B01(o.dialled), r, B01(o.closed), B01(o.reg), o.sent, o.delivered, B01(o.clean), B01(o.cclosed), B01(o.regAfter), B01(o.cseqOK))
+	return fmt.Sprintf("out=%s dialled=%s reqs=%s closed=%s reg=%s sent=%d delivered=%d clean=%s cclosed=%s regafter=%s cseq=%s afresh=%s",
+		o.out, B01(o.dialled), r, B01(o.closed), B01(o.reg), o.sent, o.delivered, B01(o.clean), B01(o.cclosed), B01(o.regAfter), B01(o.cseqOK), B01(o.afresh))
 }
 
 type testConsumer struct {
@@ -129,22 +144,27 @@ type testConsumer struct {
 func (c *testConsumer) Consume(p media.Pack) { atomic.AddInt32(&c.n, 1) }
 func (c *testConsumer) Close() error         { atomic.StoreInt32(&c.closed, 1); return nil }
 
-// the "eventually" bound shrinks once several waits have run into it: on a healthy tree it is never
-// reached, on a broken one the run must still end in reasonable time
-var timeouts int32
+// In the first pass the "eventually" bound shrinks once several waits have run into it: on a healthy tree
+// it is never reached, on a broken one the run must still end in reasonable time.  In the confirmation
+// pass (patient) every wait gets the long bound.
+var (
+	timeouts int32
+	patient  int32
+)
 
-func settleNow() time.Duration {
+func bound() time.Duration {
+	if atomic.LoadInt32(&patient) == 1 {
+		return patience
+	}
 	if atomic.LoadInt32(&timeouts) >= 3 {
-		return 2500 * time.Millisecond
+		return 3 * time.Second
 	}
 	return settle
 }
 
-func waitFor(d time.Duration, cond func() bool) bool {
-	if d == settle {
-		d = settleNow()
-	}
-	deadline := time.Now().Add(d)
+// waitFor: poll cond until it holds; the budget costs nothing when the event arrives
+func waitFor(cond func() bool) bool {
+	deadline := time.Now().Add(bound())
 	for {
 		if cond() {
 			return true
@@ -166,29 +186,102 @@ func waitCh(ch <-chan struct{}, d time.Duration) bool {
 	}
 }
 
+// getOrCreate: media.GetOrCreate under a watchdog; a panic and a hang are outcomes, not harness failures
+func getOrCreate(p string) (st *media.Stream, out string, note string) {
+	type res struct {
+		s     *media.Stream
+		panic interface{}
+	}
+	done := make(chan res, 1)
+	go func() {
+		var r res
+		defer func() {
+			if p := recover(); p != nil {
+				r.panic = p
+			}
+			done <- r
+		}()
+		r.s = media.GetOrCreate(p)
+	}()
+	select {
+	case r := <-done:
+		switch {
+		case r.panic != nil:
+			return nil, "panic", fmt.Sprint(r.panic)
+		case r.s != nil:
+			return r.s, "stream", ""
+		}
+		return nil, "nil", ""
+	case <-time.After(hangAfter()):
+		return nil, "hang", ""
+	}
+}
+
+// guarded: a call into the implementation that must return at once (Close, StopConsume, Regist …);
+// false if it does not return within the bound (the caller reports the scenario as hanging)
+func guarded(f func()) bool {
+	done := make(chan struct{})
+	go func() {
+		defer close(done)
+		defer func() { recover() }()
+		f()
+	}()
+	return waitCh(done, bound()+10*time.Second)
+}
+
+// runScenarioGuarded: the scenario under a watchdog of its own, so that the harness never hangs
+func runScenarioGuarded(s *scenario, path string) *observation {
+	ch := make(chan *observation, 1)
+	go func() { ch <- runScenario(s, path) }()
+	select {
+	case o := <-ch:
+		return o
+	case <-time.After(2*hangAfter() + 8*bound() + time.Minute):
+		return &observation{out: "hang", cseqOK: true, notes: []string{"harness watchdog: the scenario did not come to an end"}}
+	}
+}
+
 // runScenario executes one scenario against the real code
 func runScenario(s *scenario, path string) *observation {
 	o := &observation{cseqOK: true}
-	cam, err := newCamera(s.script, "")
-	if err != nil {
-		Fatal("listen: %v", err)
+	var cam *camera
+	var host string
+	if s.listen {
+		var err error
+		if cam, err = newCamera(s.script, ""); err != nil {
+			o.out = "infra"
+			o.notes = append(o.notes, "listen: "+err.Error())
+			return o
+		}
+		host = cam.addr()
+		defer cam.close()
+	} else {
+		// nobody listens: the port is bound but not listening, so the connection is refused and the port
+		// cannot be handed to anybody else meanwhile
+		addr, release, err := reservePort()
+		if err != nil {
+			o.out = "infra"
+			o.notes = append(o.notes, "reserve port: "+err.Error())
+			return o
+		}
+		defer release()
+		host = addr
+		cam = &camera{accepts: make(chan *camConn)}
 	}
-	host := cam.addr()
-	if !s.listen {
-		cam.ln.Close() // nobody listens on that port any more: connection refused
-	}
-	defer cam.close()
 	up := ""
 	if s.urlPath {
 		up = "/live"
 	}
-	cam.sdp = sdpBody(s.sdp, "rtsp://"+host+up)
+	base := "rtsp://" + host + up
+	cam.sdp = sdpBody(s.sdp, base)
 	cred := ""
 	if s.user {
 		cred = camUser + ":" + camPass + "@"
 	}
 	if err := route.Save(&route.Route{Pattern: path, URL: "rtsp://" + cred + host + up, KeepAlive: s.keep}); err != nil {
-		Fatal("route.Save: %v", err)
+		o.out = "infra"
+		o.notes = append(o.notes, "route.Save: "+err.Error())
+		return o
 	}
 	defer route.Del(path)
 
@@ -228,15 +321,18 @@ func runScenario(s *scenario, path string) *observation {
 		default:
 			o.out = "nil"
 		}
-	case <-time.After(hangAfter):
+	case <-time.After(hangAfter()):
 		o.out = "hang"
 	}
 	var cc *camConn
-	select {
-	case cc = <-cam.accepts:
-		o.dialled = true
-	default:
+	if s.listen {
+		// somebody listens, so a dial succeeds; the camera's accept loop hands the connection over, possibly a moment later
+		select {
+		case cc = <-cam.accepts:
+		case <-time.After(bound()):
+		}
 	}
+	o.dialled = cc != nil
 	if o.out == "hang" {
 		// let the stuck requester go, so that the harness itself does not leak
 		if cc != nil {
@@ -255,16 +351,21 @@ func runScenario(s *scenario, path string) *observation {
 		cc.mu.Lock()
 		playedAt := cc.playedAt
 		cc.mu.Unlock()
+		o.extra = 0
+		o.reqs = nil
 		for i, r := range cc.requests() {
 			if playedAt > 0 && i >= playedAt { // after PLAY: only keep-alive OPTIONS are expected
 				o.extra++
-				if r.Method != "OPTIONS" || r.Cred == "wrong" {
-					o.notes = append(o.notes, "after-play:"+r.String())
+				if r.Method != "OPTIONS" || r.Cred == "wrong" || r.target(base) != "b" {
+					o.notes = append(o.notes, "after-play:"+r.tok(base)+" "+r.URL)
 					o.extraBad = true
 				}
 				continue
 			}
-			o.reqs = append(o.reqs, r.String())
+			o.reqs = append(o.reqs, r.tok(base))
+			if r.target(base) == "x" {
+				o.notes = append(o.notes, fmt.Sprintf("%s addressed to %q transport %q (route URL %q)", r.Method, r.URL, r.Transport, base))
+			}
 			var n int
 			fmt.Sscanf(r.CSeq, "%d", &n)
 			if n <= last {
@@ -275,7 +376,7 @@ func runScenario(s *scenario, path string) *observation {
 	}
 	if stream == nil {
 		if cc != nil && o.out != "hang" {
-			o.closed = waitCh(cc.peerGone, 3*time.Second)
+			o.closed = waitCh(cc.peerGone, bound())
 		}
 		_, o.regAfter = media.VerifRegistry()[path]
 		o.clean = !o.regAfter && (cc == nil || o.closed)
@@ -284,13 +385,16 @@ func runScenario(s *scenario, path string) *observation {
 			o.closed, o.clean = false, false
 		}
 		collect()
+		if o.out == "nil" && o.clean {
+			o.afresh = pullAgain(s, cam, path, nil, o)
+		}
 		return o
 	}
 	// success: the stream must appear under the requested path
-	o.reg = waitFor(settle, func() bool { return media.Get(path) == stream })
+	o.reg = waitFor(func() bool { return media.Get(path) == stream })
 	// a second request for the path while the pull is live is served by the same stream, without a second pull
 	if o.reg {
-		again := media.GetOrCreate(" " + path + " ")
+		again, _, _ := getOrCreate(" " + path + " ")
 		select {
 		case extra := <-cam.accepts:
 			o.notes = append(o.notes, "second request dialled the camera again")
@@ -315,10 +419,27 @@ func runScenario(s *scenario, path string) *observation {
 		}
 	}
 	cons := &testConsumer{}
-	cid := stream.StartConsume(cons, media.RTPPacket, "c20")
-	_ = cid
+	var cid media.CID
+	stuck := func(what string) *observation {
+		o.out = "hang"
+		o.notes = append(o.notes, "a call into the implementation did not return: "+what)
+		collect()
+		return o
+	}
+	if !guarded(func() { cid = stream.StartConsume(cons, media.RTPPacket, "c20") }) {
+		return stuck("StartConsume")
+	}
 	seq := uint16(1)
 	terminal := "eof"
+	due := false // the heart-beat interval has passed since the last keep-alive: the next message makes the client send OPTIONS
+	arrived := func() {
+		if due {
+			due = false
+			o.wantKA++
+			want := o.wantKA
+			waitFor(func() bool { return cc.afterPlay() >= want })
+		}
+	}
 	for i, ev := range s.play {
 		if i == len(s.play)-1 {
 			terminal = ev
@@ -329,17 +450,22 @@ func runScenario(s *scenario, path string) *observation {
 			cc.write(rtpPacket(ev[1]-'0', seq, 0))
 			seq++
 			o.sent++
+			arrived()
 		case ev == "opt": // a request from the camera: the client must answer it and go on
 			cc.write([]byte("OPTIONS * RTSP/1.0\r\nCSeq: 900\r\n\r\n"))
+			arrived()
 		case ev == "resp": // a stray response: ignored by the client
 			cc.write([]byte("RTSP/1.0 200 OK\r\nCSeq: 901\r\n\r\n"))
-		case ev == "ka": // let the heart-beat interval pass: the next packet makes the client send OPTIONS
-			time.Sleep(heartbeat + 60*time.Millisecond)
+			arrived()
+		case ev == "ka": // let the heart-beat interval pass: the next message makes the client send OPTIONS
+			time.Sleep(2 * heartbeat)
+			due = true
 		}
 	}
 	want := int32(o.sent)
-	waitFor(settle, func() bool { return atomic.LoadInt32(&cons.n) >= want })
+	waitFor(func() bool { return atomic.LoadInt32(&cons.n) >= want })
 	o.delivered = int(atomic.LoadInt32(&cons.n))
+	var other *media.Stream
 	switch terminal {
 	case "eof":
 		cc.kill(false)
@@ -352,34 +478,46 @@ func runScenario(s *scenario, path string) *observation {
 		cc.write([]byte{'$', 0, 0x10, 0x00, 1, 2, 3})
 		cc.kill(false)
 	case "idle": // nobody consumes any more and the idle task fires: the stream is closed, the pull must end
-		stream.StopConsume(cid)
-		if task != nil {
-			func() {
-				defer func() { recover() }()
+		if !guarded(func() {
+			stream.StopConsume(cid)
+			if task != nil {
 				task.Tick(0)
-			}()
-		} else {
-			stream.Close() // (keepalive route: no task; same effect for the pull as an API stop)
+			} else {
+				stream.Close() // (keepalive route: no task; same effect for the pull as an API stop)
+			}
+		}) {
+			return stuck("StopConsume / idle task / Close")
 		}
 		cc.write(rtpPacket(0, seq, 0))
 	case "stop": // the stream is closed on the server side (API stop): the pull must notice with the next packet
-		stream.Close()
+		if !guarded(func() { stream.Close() }) {
+			return stuck("Stream.Close")
+		}
 		cc.write(rtpPacket(0, seq, 0))
 	case "replace": // another publisher registers on the path: the pulled stream is retired
-		stream.StopConsume(cid)
-		other := media.NewStream(path, cam.sdp)
-		media.Regist(other)
+		if !guarded(func() {
+			stream.StopConsume(cid)
+			other = media.NewStream(path, cam.sdp)
+			media.Regist(other)
+		}) {
+			return stuck("StopConsume / Regist")
+		}
 		cc.write(rtpPacket(0, seq, 0))
-		defer media.Unregist(other)
-		ok := waitFor(settle, func() bool { return atomic.LoadInt32(&cons.closed) == 1 && waitChNow(cc.peerGone) })
+		ok := waitFor(func() bool { return atomic.LoadInt32(&cons.closed) == 1 && waitChNow(cc.peerGone) })
 		o.cclosed = atomic.LoadInt32(&cons.closed) == 1
 		o.closed = waitChNow(cc.peerGone)
 		o.regAfter = media.VerifRegistry()[path] == stream
 		o.clean = ok && !o.regAfter && media.Get(path) == other
 		collect()
+		if !guarded(func() { media.Unregist(other) }) {
+			return stuck("Unregist")
+		}
+		if o.clean {
+			o.afresh = pullAgain(s, cam, path, stream, o)
+		}
 		return o
 	}
-	ok := waitFor(settle, func() bool {
+	ok := waitFor(func() bool {
 		_, still := media.VerifRegistry()[path]
 		return !still && atomic.LoadInt32(&cons.closed) == 1 && waitChNow(cc.peerGone)
 	})
@@ -388,7 +526,62 @@ func runScenario(s *scenario, path string) *observation {
 	o.closed = waitChNow(cc.peerGone)
 	o.clean = ok
 	collect()
+	if o.clean {
+		o.afresh = pullAgain(s, cam, path, stream, o)
+	}
 	return o
+}
+
+// pullAgain: everything of the first pull has ended; a later request for the path must pull afresh:
+// the camera is dialled again (if it listens), the requester gets the same kind of result as the first
+// one (the camera answers every connection by the same script), a new stream is a new object and is
+// registered.  The second pull is then ended by the camera going away.
+func pullAgain(s *scenario, cam *camera, path string, first *media.Stream, o *observation) bool {
+	st, out, note := getOrCreate(path)
+	var cc *camConn
+	if s.listen {
+		select {
+		case cc = <-cam.accepts:
+		case <-time.After(bound()):
+		}
+	}
+	bad := func(f string, a ...interface{}) bool {
+		o.notes = append(o.notes, "later request: "+fmt.Sprintf(f, a...))
+		if cc != nil {
+			cc.kill(false)
+		}
+		return false
+	}
+	if s.listen && cc == nil {
+		return bad("the camera was not dialled again (requester got %s)", out)
+	}
+	wantOut := "nil"
+	if first != nil {
+		wantOut = "stream"
+	}
+	if out != wantOut {
+		return bad("requester got %s %s, the first request got %s", out, note, wantOut)
+	}
+	if st == nil {
+		if cc != nil && !waitCh(cc.peerGone, bound()) {
+			return bad("the connection of the failed second pull was not closed")
+		}
+		return true
+	}
+	if st == first {
+		return bad("got the stream of the pull that had ended")
+	}
+	if !waitFor(func() bool { return media.Get(path) == st }) {
+		return bad("the new stream did not appear under the path")
+	}
+	cc.kill(false)
+	if !waitFor(func() bool {
+		_, still := media.VerifRegistry()[path]
+		return !still && waitChNow(cc.peerGone)
+	}) {
+		return bad("the second pull was not cleaned up after the camera went away")
+	}
+	return true
 }
 
 // describeViaRtsp: a real RTSP session of the server (rtsp.CreateAcceptHandler on a net.Pipe) receives
@@ -397,7 +590,7 @@ func describeViaRtsp(reqPath, canon string) (*media.Stream, string) {
 	cli, srv := net.Pipe()
 	rtsp.CreateAcceptHandler()(srv)
 	defer cli.Close()
-	cli.SetDeadline(time.Now().Add(hangAfter + 2*time.Second))
+	cli.SetDeadline(time.Now().Add(hangAfter() + 2*time.Second))
 	go fmt.Fprintf(cli, "DESCRIBE rtsp://localhost%s RTSP/1.0\r\nCSeq: 1\r\nAccept: application/sdp\r\n\r\n", reqPath)
 	br := bufio.NewReader(cli)
 	line, err := br.ReadString('\n')
@@ -412,7 +605,7 @@ func describeViaRtsp(reqPath, canon string) (*media.Stream, string) {
 		return nil, f[1]
 	}
 	var st *media.Stream
-	waitFor(settle, func() bool { st = media.Get(canon); return st != nil })
+	waitFor(func() bool { st = media.Get(canon); return st != nil })
 	if st == nil {
 		return nil, "200-but-no-stream"
 	}
@@ -431,17 +624,30 @@ func waitChNow(ch <-chan struct{}) bool {
 // runDual: two simultaneous first requests for one routed path.  Both miss in Get (held together at
 // the getorcreate.miss point), both pull from the camera, both register; the registry must end with
 // one live stream, the other client must be told (stream closed) and release its connection, and
-// its Unregist must not remove the winner.
-func runDual(id int, pauseRegist bool) (obs string, notes []string) {
+// its Unregist must not remove the winner.  `long` bounds every wait (it costs nothing when the event
+// arrives).  exercised=false: the two requests did not both pull (one was served by the other's
+// stream, or the machine was too slow to hold them together): nothing to judge.
+func runDual(id int, pauseRegist bool, long time.Duration) (obs string, notes []string, exercised bool) {
 	path := fmt.Sprintf("/c20/dual%d", id)
 	cam, err := newCamera(nil, "")
 	if err != nil {
-		Fatal("listen: %v", err)
+		return "", []string{"listen: " + err.Error()}, false
 	}
 	defer cam.close()
 	cam.sdp = sdpBody("va", "rtsp://"+cam.addr()+"/live")
 	route.Save(&route.Route{Pattern: path, URL: "rtsp://" + cam.addr() + "/live", KeepAlive: true})
 	defer route.Del(path)
+	until := func(cond func() bool) bool {
+		deadline := time.Now().Add(long)
+		for !cond() {
+			if time.Now().After(deadline) {
+				return false
+			}
+			time.Sleep(2 * time.Millisecond)
+		}
+		return true
+	}
+	until(func() bool { n, _ := pullGoroutines(); return n == 0 }) // whatever ran before has wound down
 	base := stats.RtspConns.GetSample().Active
 	var arrived int32
 	both := make(chan struct{})
@@ -456,48 +662,56 @@ func runDual(id int, pauseRegist bool) (obs string, notes []string) {
 			if atomic.AddInt32(&arrived, 1) == 2 {
 				close(both)
 			}
-			waitCh(both, 3*time.Second)
+			waitCh(both, long)
 		case "regist.loaded":
 			if atomic.CompareAndSwapInt32(&registArmed, 1, 0) {
 				close(registPaused)
-				waitCh(registRelease, 2*time.Second)
+				waitCh(registRelease, long)
 			}
 		}
 	})
 	defer verifhook.Set(nil)
 	res := make([]*media.Stream, 2)
+	outs := make([]string, 2)
 	var wg sync.WaitGroup
 	for i := 0; i < 2; i++ {
 		wg.Add(1)
 		go func(i int) {
 			defer wg.Done()
-			defer func() { recover() }()
-			res[i] = media.GetOrCreate(path)
+			res[i], outs[i], _ = getOrCreate(path)
 		}(i)
 	}
-	wg.Wait()
+	wg.Wait() // (getOrCreate has its own watchdog)
 	if pauseRegist {
 		// the first Regist is held after its Load; give the second one the chance to run inside it
-		if waitCh(registPaused, 3*time.Second) {
+		// (with the lock in place it cannot; without it, it usually does — if not, the window is not exercised)
+		if waitCh(registPaused, long) {
 			time.Sleep(30 * time.Millisecond)
 		}
 		close(registRelease)
 	}
-	if res[0] == nil || res[1] == nil || res[0] == res[1] {
-		return "live=? registered=0 loserconn=0 winnerkept=0 clean=0 leak=0 both=0", []string{"GetOrCreate did not return two distinct streams"}
+	fail := "live=? registered=0 loserconn=0 winnerkept=0 clean=0 leak=0 both=0"
+	if outs[0] == "hang" || outs[1] == "hang" || outs[0] == "panic" || outs[1] == "panic" {
+		return fail, []string{"GetOrCreate: " + outs[0] + " / " + outs[1]}, true
+	}
+	if res[0] == nil || res[1] == nil {
+		return fail, []string{"a request for a cooperative camera got no stream: " + outs[0] + " / " + outs[1]}, true
+	}
+	if res[0] == res[1] {
+		return "", nil, false // one request was served by the other's pull: one stream, nothing raced
 	}
 	var conns []*camConn
 	for len(conns) < 2 {
 		select {
 		case cc := <-cam.accepts:
 			conns = append(conns, cc)
-		case <-time.After(settle):
-			return "live=? registered=0 loserconn=0 winnerkept=0 clean=0 leak=0 both=0", []string{"fewer than two camera connections"}
+		case <-time.After(long):
+			return fail, []string{"two streams but fewer than two camera connections"}, true
 		}
 	}
 	// both Regist calls done: one of the two is the registered one and the other is not OK any more,
 	// or (the defect) both stay OK
-	waitFor(3*time.Second, func() bool {
+	until(func() bool {
 		w := media.Get(path)
 		return (w == res[0] && res[1].VerifStatus() != media.StreamOK) || (w == res[1] && res[0].VerifStatus() != media.StreamOK)
 	})
@@ -513,15 +727,14 @@ func runDual(id int, pauseRegist bool) (obs string, notes []string) {
 	for _, cc := range conns {
 		cc.write(rtpPacket(0, 1, 0))
 	}
-	loserConn := waitFor(settle/3, func() bool { return waitChNow(conns[0].peerGone) != waitChNow(conns[1].peerGone) || live != 1 })
-	loserConn = loserConn && live == 1 && (waitChNow(conns[0].peerGone) != waitChNow(conns[1].peerGone))
-	oneConn := waitFor(3*time.Second, func() bool { return stats.RtspConns.GetSample().Active == base+1 })
+	loserConn := live == 1 && until(func() bool { return waitChNow(conns[0].peerGone) != waitChNow(conns[1].peerGone) })
+	oneConn := live == 1 && until(func() bool { return stats.RtspConns.GetSample().Active == base+1 })
 	winnerKept := media.Get(path) == winner && winner != nil
 	// the end: the camera goes away
 	for _, cc := range conns {
 		cc.kill(false)
 	}
-	clean := waitFor(settle, func() bool {
+	clean := until(func() bool {
 		_, still := media.VerifRegistry()[path]
 		n, _ := pullGoroutines()
 		return !still && stats.RtspConns.GetSample().Active == base && n == 0
@@ -529,8 +742,10 @@ func runDual(id int, pauseRegist bool) (obs string, notes []string) {
 	if !oneConn {
 		notes = append(notes, "connection counter is not base+1 after the loser left")
 	}
-	return fmt.Sprintf("live=%d registered=%s loserconn=%s winnerkept=%s clean=%s leak=%s both=1", live, B01(registered), B01(loserConn), B01(winnerKept), B01(clean), B01(!oneConn)), notes
+	return fmt.Sprintf("live=%d registered=%s loserconn=%s winnerkept=%s clean=%s leak=%s both=1", live, B01(registered), B01(loserConn), B01(winnerKept), B01(clean), B01(!oneConn)), notes, true
 }
+
+const dualGood = "live=1 registered=1 loserconn=1 winnerkept=1 clean=1 leak=0 both=1"
 
 // pullGoroutines counts goroutines that are inside the pull client, a consumption loop or a stream's conversion workers
 func pullGoroutines() (n int, sample string) {
@@ -556,7 +771,7 @@ var okTokens = []string{"ok", "ok+s", "ok+st", "s200", "s201", "s300"}
 
 func tracksOf(sdp string) int {
 	switch sdp {
-	case "va", "absctl":
+	case "va", "av", "absctl":
 		return 2
 	case "v", "a":
 		return 1
@@ -609,7 +824,7 @@ func genPlay(r *Rng) []string {
 
 func genScenario(r *Rng) *scenario {
 	s := &scenario{user: r.Chance(65), listen: !r.Chance(4), urlPath: !r.Chance(6), keep: r.Chance(50)}
-	kinds := []string{"va", "va", "v", "v", "a", "none", "vnoctl", "absctl", "bad", "nofmt"}
+	kinds := []string{"va", "va", "v", "v", "a", "none", "vnoctl", "absctl", "bad", "nofmt", "av"}
 	s.sdp = kinds[r.Intn(len(kinds))]
 	nreq := 3 + tracksOf(s.sdp)
 	s.script = coopScript(r, nreq, s.user)
@@ -657,7 +872,7 @@ func systematic() []*scenario {
 			out = append(out, &scenario{user: false, listen: true, urlPath: true, keep: keep, sdp: "v", script: nil, play: []string{term}})
 		}
 	}
-	for _, sdp := range []string{"va", "v", "a", "none", "vnoctl", "absctl", "bad", "nofmt"} {
+	for _, sdp := range []string{"va", "av", "v", "a", "none", "vnoctl", "absctl", "bad", "nofmt"} {
 		for _, up := range []bool{true, false} {
 			out = append(out, &scenario{user: false, listen: true, urlPath: up, sdp: sdp, play: []string{"p0", "eof"}})
 		}
@@ -681,11 +896,17 @@ func classOf(verdict string) string {
 }
 
 // timing of one phase: the NetTimeout override and the derived hang watchdog
-var hangAfter = 12 * time.Second
+var hangNs int64 = int64(50 * time.Second)
+
+func hangAfter() time.Duration { return time.Duration(atomic.LoadInt64(&hangNs)) }
 
 func setPhase(nt time.Duration) {
 	config.VerifSetNetTimeouts(nt, heartbeat)
-	hangAfter = 4*nt + 2*time.Second // the requester not back after 4 × NetTimeout: reported as a hang
+	h := 4*nt + 2*time.Second // the requester not back after 4 × NetTimeout: reported as a hang
+	if atomic.LoadInt32(&patient) == 1 {
+		h += 20 * time.Second
+	}
+	atomic.StoreInt64(&hangNs, int64(h))
 }
 
 func hasSilence(s *scenario) bool {
@@ -716,12 +937,33 @@ func implKeyOf(o *observation) string {
 	if strings.HasPrefix(out, "status-") {
 		out = "nil"
 	}
-	return fmt.Sprintf("out=%s;reqs=%s;closed=%s;reg=%s;delivered=%d;clean=%s", out, strings.Join(o.reqs, ","), B01(o.closed), B01(o.reg), o.delivered, B01(o.clean))
+	return fmt.Sprintf("out=%s;reqs=%s;closed=%s;reg=%s;delivered=%d;clean=%s;ka=%d", out, strings.Join(o.reqs, ","), B01(o.closed), B01(o.reg), o.delivered, B01(o.clean), o.ka())
 }
 
-// failing: does the driver's answer disagree with the observation, or does the spec reject it?
-func failing(o *observation, m map[string]string) bool {
-	return o.idleTask > 1 || o.secondBad || implKeyOf(o) != m["model"] || m["verdict"] != "ok" || o.extraBad || strings.HasPrefix(o.out, "status-")
+// failClass: "" if the driver's answer agrees with the observation and the specification accepts it,
+// else a short name of what is wrong (used to pick the cases of the confirmation pass)
+func failClass(s *scenario, o *observation, m map[string]string) string {
+	wantTask := 1
+	if s.keep {
+		wantTask = 0
+	}
+	switch {
+	case o.out == "infra":
+		return ""
+	case m["verdict"] != "ok":
+		return m["verdict"]
+	case strings.HasPrefix(o.out, "status-"):
+		return "status"
+	case o.secondBad:
+		return "second"
+	case o.extraBad:
+		return "extra"
+	case o.out == "stream" && o.idleTask != wantTask:
+		return "idletask"
+	case implKeyOf(o) != m["model"]:
+		return "corr"
+	}
+	return ""
 }
 
 // runBatches runs the scenarios idx (indices into scs) in parallel batches; batch-level leak check
@@ -739,15 +981,15 @@ func runBatches(scs []*scenario, idx []int, obs []*observation, tag string) {
 			wg.Add(1)
 			go func(i int) {
 				defer wg.Done()
-				obs[i] = runScenario(scs[i], fmt.Sprintf("/c20/%s%d", tag, i))
+				obs[i] = runScenarioGuarded(scs[i], fmt.Sprintf("/c20/%s%d", tag, i))
 			}(i)
 		}
 		wg.Wait()
 		if leakPinned {
 			continue // a leak is already pinned on concrete scenarios; later batches cannot be judged any more
 		}
-		okc := waitFor(6*time.Second, func() bool { return stats.RtspConns.GetSample().Active == base })
-		okg := waitFor(6*time.Second, func() bool { n, _ := pullGoroutines(); return n == 0 })
+		okc := waitFor(func() bool { return stats.RtspConns.GetSample().Active == base })
+		okg := waitFor(func() bool { n, _ := pullGoroutines(); return n == 0 })
 		if !okc || !okg {
 			// pin the leak on single scenarios: re-run the batch one by one (stop at the third culprit)
 			culprits := 0
@@ -770,23 +1012,33 @@ func runBatches(scs []*scenario, idx []int, obs []*observation, tag string) {
 
 // runAlone: one scenario with nothing else going on, with its own leak check; true if it leaks
 func runAlone(s *scenario, path string, obs []*observation, i int) bool {
+	waitFor(func() bool { n, _ := pullGoroutines(); return n == 0 }) // whatever ran before has wound down (if it ever does)
 	b0 := stats.RtspConns.GetSample().Active
 	g0, _ := pullGoroutines()
-	o := runScenario(s, path)
-	c1 := waitFor(3*time.Second, func() bool { return stats.RtspConns.GetSample().Active == b0 })
-	g1 := waitFor(3*time.Second, func() bool { n, _ := pullGoroutines(); return n <= g0 })
+	o := runScenarioGuarded(s, path)
+	c1 := waitFor(func() bool { return stats.RtspConns.GetSample().Active == b0 })
+	var sample string
+	g1 := waitFor(func() bool { n, sm := pullGoroutines(); sample = sm; return n <= g0 })
 	if !c1 {
 		o.notes = append(o.notes, "leak:conncount")
 	}
 	if !g1 {
-		o.notes = append(o.notes, "leak:goroutine")
+		o.notes = append(o.notes, "leak:goroutine "+firstLines(sample, 6))
 	}
 	obs[i] = o
 	return !c1 || !g1
 }
 
+func firstLines(s string, n int) string {
+	l := strings.Split(s, "\n")
+	if len(l) > n {
+		l = l[:n]
+	}
+	return strings.Join(l, " | ")
+}
+
 func runC20(c *Ctx) {
-	c.Res.Rule = "case = one pull scenario (route URL with/without credentials, camera script: one response kind per received request, SDP kind, play events + terminal event; requester = media.GetOrCreate or a real RTSP session) against a fake camera on a loopback listener, or one pair of simultaneous first requests; distinct by the scenario line; non-trivial when the camera was dialled and answered at least one request.  A disagreement is reported only if it reproduces when the scenario is re-run alone with a generous timeout"
+	c.Res.Rule = "case = one pull scenario (route URL with/without credentials, camera script: one response kind per received request, SDP kind, play events + terminal event; requester = media.GetOrCreate or a real RTSP session; afterwards a later request for the same path) against a fake camera on a loopback listener, or one pair of simultaneous first requests; distinct by the scenario line; non-trivial when the camera was dialled and answered at least one request.  A disagreement is reported only if it reproduces when the scenario is re-run alone with generous time bounds"
 	var scs []*scenario
 	for _, l := range c.CorpusLines() {
 		f := strings.Fields(l)
@@ -794,9 +1046,11 @@ func runC20(c *Ctx) {
 			scs = append(scs, parseScenario(KV(strings.Join(f[2:], " "))))
 		}
 	}
-	scs = append(scs, systematic()...)
-	for i, n := 0, c.Budget(600, 6000); i < n; i++ {
-		scs = append(scs, genScenario(c.Rng))
+	if c.Replay == "" {
+		scs = append(scs, systematic()...)
+		for i, n := 0, c.Budget(600, 6000); i < n; i++ {
+			scs = append(scs, genScenario(c.Rng))
+		}
 	}
 	var quiet, silent []int
 	for i, s := range scs {
@@ -818,59 +1072,124 @@ func runC20(c *Ctx) {
 	for i, s := range scs {
 		lines[i] = obsLine(s, obs[i])
 	}
-	// simultaneous first requests (one at a time: they use the global verif hook)
-	setPhase(12 * time.Second)
-	nDual := c.Budget(6, 30)
-	dualObs := make([]string, nDual)
-	dualNotes := make([][]string, nDual)
-	for i := 0; i < nDual; i++ {
-		dualObs[i], dualNotes[i] = runDual(i, i%2 == 1)
-		lines = append(lines, "c20 dual")
-	}
 	outs := c.Drive(lines)
-	// confirmation: whatever failed is run again, alone, with a generous timeout; only what fails again is reported
-	var again []int
+	// confirmation: whatever failed is run again, alone, with generous time bounds; only what fails again is
+	// reported.  When many cases fail, a few of every kind of failure are re-run (quiet ones first); the
+	// others are not reported at all — never on the strength of the first, parallel run.
+	byClass := map[string][]int{}
+	var classes []string
+	nFail := 0
 	for i := range scs {
-		if failing(obs[i], KV(outs[i])) {
-			again = append(again, i)
+		if cl := failClass(scs[i], obs[i], KV(outs[i])); cl != "" {
+			if _, ok := byClass[cl]; !ok {
+				classes = append(classes, cl)
+			}
+			byClass[cl] = append(byClass[cl], i)
+			nFail++
 		}
 	}
-	if len(again) > 0 {
-		c.CountN("first-run-disagreements-rechecked", len(again))
-		if len(again) > 12 {
-			again = again[:12]
+	unconfirmed := map[int]bool{}
+	if nFail > 0 {
+		c.CountN("first-run-disagreements", nFail)
+		sort.Strings(classes)
+		var again []int
+		for round := 0; len(again) < 24; round++ {
+			added := false
+			for _, cl := range classes {
+				l := byClass[cl]
+				sort.SliceStable(l, func(a, b int) bool { return !hasSilence(scs[l[a]]) && hasSilence(scs[l[b]]) })
+				if round < len(l) && len(again) < 24 {
+					again = append(again, l[round])
+					added = true
+				}
+			}
+			if !added {
+				break
+			}
 		}
-		setPhase(6 * time.Second)
-		var l2 []string
+		picked := map[int]bool{}
 		for _, i := range again {
+			picked[i] = true
+		}
+		for _, l := range byClass {
+			for _, i := range l {
+				if !picked[i] {
+					unconfirmed[i] = true
+				}
+			}
+		}
+		atomic.StoreInt32(&patient, 1)
+		setPhase(6 * time.Second)
+		started := time.Now()
+		var l2 []string
+		var done []int
+		for _, i := range again {
+			if time.Since(started) > 6*time.Minute { // a broken tree: enough has been confirmed
+				unconfirmed[i] = true
+				continue
+			}
 			runAlone(scs[i], fmt.Sprintf("/c20/c%d", i), obs, i)
 			l2 = append(l2, obsLine(scs[i], obs[i]))
+			done = append(done, i)
 		}
 		o2 := c.Drive(l2)
-		for k, i := range again {
+		for k, i := range done {
 			lines[i], outs[i] = l2[k], o2[k]
+			if failClass(scs[i], obs[i], KV(outs[i])) == "" {
+				c.Count("first-run-disagreement-not-reproduced-alone")
+			} else {
+				c.Count("first-run-disagreement-confirmed-alone")
+			}
 		}
-		// the ones beyond the first 12 keep their first observation (they are reported if they failed)
+		c.CountN("first-run-disagreements-not-rerun-not-reported", len(unconfirmed))
+		atomic.StoreInt32(&patient, 0)
 	}
-	for i := 0; i < nDual; i++ {
-		m := KV(outs[len(scs)+i])
-		caseLine := fmt.Sprintf("c20 dual # run %d, first Regist paused=%v", i, i%2 == 1)
-		c.Eval(fmt.Sprintf("dual-%d", i%2), true)
-		c.Count("dual-" + dualObs[i])
-		k := KV(dualObs[i])
-		if got := fmt.Sprintf("live=%s;registered=%s", k["live"], k["registered"]); got != m["model"] {
-			c.Find(Finding{Kind: "corr", Class: "dual-first-requests", Case: caseLine, Impl: got, Model: m["model"], Detail: strings.Join(dualNotes[i], "; ")})
+	// simultaneous first requests (one at a time: they use the global verif hook).  A run that is not as it
+	// should be is repeated twice with long bounds; only a result that stays wrong is reported.
+	setPhase(12 * time.Second)
+	nDual := c.Budget(6, 30)
+	if c.Replay != "" {
+		nDual = 0
+		for _, l := range c.CorpusLines() {
+			if strings.HasPrefix(l, "c20 dual") {
+				nDual = 2
+			}
 		}
-		if dualObs[i] != "live=1 registered=1 loserconn=1 winnerkept=1 clean=1 leak=0 both=1" {
-			c.Find(Finding{Kind: "oracle", Class: "concurrent-first-requests-not-one-stream", Case: caseLine, Impl: dualObs[i], Spec: "live=1 registered=1 loserconn=1 winnerkept=1 clean=1 leak=0 both=1", Detail: strings.Join(dualNotes[i], "; ")})
+	}
+	dualOut := c.Drive([]string{"c20 dual"})
+	dualConfirmedBad := false
+	for i := 0; i < nDual && !dualConfirmedBad; i++ {
+		pause := i%2 == 1
+		ob, notes, ex := runDual(i, pause, 8*time.Second)
+		for try := 0; try < 2 && (!ex || ob != dualGood); try++ {
+			c.Count("dual-first-run-repeated")
+			ob, notes, ex = runDual(i, pause, patience)
+		}
+		caseLine := fmt.Sprintf("c20 dual # run %d, first Regist paused=%v", i, pause)
+		if !ex {
+			c.Count("dual-not-exercised")
+			continue
+		}
+		m := KV(dualOut[0])
+		c.Eval(fmt.Sprintf("dual-%d", i%2), true)
+		c.Count("dual-" + ob)
+		k := KV(ob)
+		if got := fmt.Sprintf("live=%s;registered=%s", k["live"], k["registered"]); got != m["model"] {
+			c.Find(Finding{Kind: "corr", Class: "dual-first-requests", Case: caseLine, Impl: got, Model: m["model"], Detail: strings.Join(notes, "; ")})
+		}
+		if ob != dualGood {
+			dualConfirmedBad = true
+			c.Find(Finding{Kind: "oracle", Class: "concurrent-first-requests-not-one-stream", Case: caseLine, Impl: ob, Spec: dualGood, Detail: strings.Join(notes, "; ")})
 		}
 	}
 	for i, s := range scs {
 		o := obs[i]
 		m := KV(outs[i])
 		caseLine := "c20 pull " + s.line()
-		if strings.HasPrefix(o.out, "status-") {
-			c.Find(Finding{Kind: "oracle", Class: "failed-pull-not-answered-404", Case: caseLine, Impl: o.String(), Spec: "RTSP 404 Not Found"})
+		if o.out == "infra" {
+			c.Count("infrastructure-failure-not-judged")
+			c.Note("not judged: " + caseLine + ": " + strings.Join(o.notes, "; "))
+			continue
 		}
 		c.Eval(caseLine, o.dialled && len(o.reqs) > 0)
 		c.Count("out-" + o.out)
@@ -878,6 +1197,7 @@ func runC20(c *Ctx) {
 		if o.out == "stream" {
 			c.Count("terminal-" + s.play[len(s.play)-1])
 			c.Count(fmt.Sprintf("delivered-%d", o.delivered))
+			c.Count(fmt.Sprintf("keepalives-called-for-%d", o.wantKA))
 		}
 		for _, t := range s.script {
 			c.Count("resp-" + t)
@@ -889,12 +1209,21 @@ func runC20(c *Ctx) {
 		if !o.dialled {
 			c.Count("not-dialled")
 		}
+		if o.afresh {
+			c.Count("later-request-pulled-afresh")
+		}
 		for _, r := range o.reqs {
 			f := strings.Split(r, ":")
-			c.Count("req-" + f[0] + "-" + f[1] + "-" + f[2])
+			c.Count("req-" + f[0] + "-" + f[1] + "-" + f[2] + "-" + f[4])
 		}
 		if i%(len(scs)/8+1) == 0 {
 			c.Sample(lines[i] + " => " + outs[i])
+		}
+		if unconfirmed[i] {
+			continue // failed in the parallel first run and was not re-run alone: no verdict
+		}
+		if strings.HasPrefix(o.out, "status-") {
+			c.Find(Finding{Kind: "oracle", Class: "failed-pull-not-answered-404", Case: caseLine, Impl: o.String(), Spec: "RTSP 404 Not Found"})
 		}
 		if implKey := implKeyOf(o); implKey != m["model"] {
 			c.Find(Finding{Kind: "corr", Class: "pull-scenario", Case: caseLine, Impl: implKey, Model: m["model"], Detail: strings.Join(o.notes, "; ")})
@@ -915,11 +1244,9 @@ func runC20(c *Ctx) {
 			}
 			c.Count(fmt.Sprintf("idle-task-posted-%d", o.idleTask))
 			if o.idleTask != want {
-				c.Find(Finding{Kind: "oracle", Class: "idle-close-task-not-as-route-says", Case: caseLine, Impl: fmt.Sprintf("tasks=%d keepalive=%v", o.idleTask, s.keep), Spec: fmt.Sprintf("tasks=%d", want), Detail: strings.Join(o.notes, "; ")})
+				// the property does not speak of the task; the model (GetOrCreate's guard, a regenerated fact) does
+				c.Find(Finding{Kind: "corr", Class: "idle-close-task-not-as-route-says", Case: caseLine, Impl: fmt.Sprintf("tasks=%d keepalive=%v", o.idleTask, s.keep), Model: fmt.Sprintf("tasks=%d", want), Detail: strings.Join(o.notes, "; ")})
 			}
-		}
-		if kaExpected(s) && o.out == "stream" && o.extra == 0 {
-			c.Find(Finding{Kind: "oracle", Class: "keepalive-missing", Case: caseLine, Impl: o.String(), Spec: "an OPTIONS keep-alive after the heart-beat interval", Detail: strings.Join(o.notes, "; ")})
 		}
 		if v := m["verdict"]; v != "ok" {
 			c.Find(Finding{Kind: "oracle", Class: classOf(v), Case: caseLine, Impl: o.String(), Spec: v, Detail: strings.Join(o.notes, "; ")})
@@ -927,17 +1254,6 @@ func runC20(c *Ctx) {
 	}
 }
 
-// kaExpected: the play events let the heart-beat interval pass and then deliver something, twice
-// (the first keep-alive may race with the terminal event)
-func kaExpected(s *scenario) bool {
-	n := 0
-	for i, ev := range s.play {
-		if ev == "ka" && i+2 < len(s.play) {
-			n++
-		}
-	}
-	return n >= 2
-}
-
 var _ = os.Getenv
 var _ = verifhook.Enabled
+var _ = runtime.NumGoroutine
